@@ -5,7 +5,7 @@ from .c03 import make_file
 
 RULE = ("real Pose.read calls in real threads under a deterministic line-level scheduler (sys.settrace; yield points = every source line of the modules that reference the "
         "process-global header cache, found by an ast scan of the working tree); pairs (thorough: also triples) of files with equal / different headers, bytes and windowed stream sources, "
-        "cache initially {empty, A, B}; all single-preemption schedules; double-preemption schedules: EVERY pair of preemption points inside the code that deals with the shared cache (ast: the cache class and every function naming it) in both tiers, and a sample of the other pairs (120 quick / 3000 thorough per configuration); try-locks (acquire(blocking=False)) fail at once as the real lock's do; per thread, and for one read of each file that follows the concurrent ones: result vs its single-threaded result "
+        "cache initially {empty, A, B}; all single-preemption schedules; double-preemption schedules: EVERY pair of preemption points inside the code that deals with the shared cache (ast: the cache class and every function naming it) in both tiers, and a sample of the other pairs (120 quick / 3000 thorough per configuration); try-locks (acquire(blocking=False)) fail at once as the real lock's do; every reader edits the header of its own result in place afterwards (no other read may notice); per thread, and for one read of each file that follows the concurrent ones: result vs its single-threaded result "
         "(oracle), and header/hit-miss vs the Lean protocol model run on the observed order of cache sections; non-trivial = distinct (files, sources, cache, schedule)")
 ASSUMPTIONS = ["CPython's GIL makes one attribute load/store and one lock acquire/release atomic; preemption inside a source line or inside C extensions is not explored",
                "preemption points are source lines of pose_format modules; of a line executed many times in a loop only the first occurrences are preemption candidates"]
@@ -89,10 +89,21 @@ def explore(ctx, rng, files_traced, log):
     A = refenc.v02(caseA)
     A2 = refenc.v02({"header": caseA["header"], "body": pc.gen_body(rng, caseA["header"], frames=2, people=1)})       # same header, other body
     pool = {"A": A, "A2": A2, "B": B, "C": C}
+    def use(pose):
+        """what a reader does with ITS OWN result: look at it, then edit it in place (rescale the dimensions, rename a point, move a limb) — no other read may notice"""
+        view = pc.canon_pose(pose)
+        d = pose.header.dimensions
+        d.width, d.height = (d.width + 11) % 65536, (d.height + 7) % 65536
+        for comp in pose.header.components:
+            if comp.points:
+                comp.points[0] = comp.points[0] + "*"
+            if len(comp.limbs):
+                comp.limbs[0] = (0, 0)
+        return view
     def reader(raw, kind):
         if kind == "bytes":
-            return lambda: pc.canon_pose(Pose.read(raw))
-        return lambda: pc.canon_pose(Pose.read(io.BytesIO(raw), start_frame=1, end_frame=2))
+            return lambda: use(Pose.read(raw))
+        return lambda: use(Pose.read(io.BytesIO(raw), start_frame=1, end_frame=2))
     combos = [(("A", "bytes"), ("B", "bytes")), (("A", "bytes"), ("A2", "bytes")), (("A", "stream"), ("B", "bytes")), (("B", "stream"), ("A", "stream")), (("A", "bytes"), ("C", "stream"))]
     if not ctx.thorough():
         combos = combos[:4]
